@@ -13,6 +13,8 @@ package state
 
 //@ import staking "github.com/oasisprotocol/oasis-core/go/staking/api"
 //@ import "github.com/oasisprotocol/oasis-core/go/common/quantity"
+//@ import "github.com/oasisprotocol/oasis-core/go/consensus/api/transaction"
+//@ import abciAPI "github.com/oasisprotocol/oasis-core/go/consensus/cometbft/api"
 
 //@ ghost var GGen map[staking.Address]int
 //@ ghost var GActB map[staking.Address]int
@@ -29,6 +31,7 @@ package state
 //@ ghost var GDeb map[staking.Address]map[staking.Address]map[uint64]int
 //@ ghost var GDebSum map[staking.Address]int
 //@ ghost var GWrites int
+//@ ghost var GNonce map[staking.Address]uint64
 
 //@ ghost func QV(q *quantity.Quantity) int { return quantity.Val(q) }
 //@ ghost func AGen(a *staking.Account) int { return quantity.Val(&a.General.Balance) }
@@ -49,6 +52,7 @@ package state
 //@   ensures err != nil ==> result0 == nil
 //@   ensures err == nil ==> fresh(result0) && AGen(result0) == GGen[address] && AActB(result0) == GActB[address] && AActS(result0) == GActS[address] && ADebB(result0) == GDebB[address] && ADebS(result0) == GDebS[address]
 //@   ensures err == nil ==> AValid(result0)
+//@   ensures err == nil ==> result0.General.Nonce == GNonce[address]
 //@   ensures err == nil ==> GAcctSum >= StoredSum(address)
 //@   ensures err != nil ==> unavail(err) || ufb("addrInvalid", address)
 //@   note GAcctSum >= StoredSum: a sum of non-negative stored balances dominates each summand
@@ -57,7 +61,8 @@ package state
 //@   trusted
 //@   ensures err != nil ==> unavail(err)
 //@   requires account != nil
-//@   modifies GGen, GActB, GActS, GDebB, GDebS, GAcctSum, GWrites
+//@   modifies GGen, GActB, GActS, GDebB, GDebS, GAcctSum, GWrites, GNonce
+//@   ensures err == nil ==> mapEq(GNonce, upd(old(GNonce), addr, account.General.Nonce))
 //@   ensures err == nil ==> mapEq(GGen, upd(old(GGen), addr, AGen(account))) && mapEq(GActB, upd(old(GActB), addr, AActB(account))) && mapEq(GActS, upd(old(GActS), addr, AActS(account)))
 //@   ensures err == nil ==> mapEq(GDebB, upd(old(GDebB), addr, ADebB(account))) && mapEq(GDebS, upd(old(GDebS), addr, ADebS(account)))
 //@   ensures err == nil ==> GAcctSum == old(GAcctSum) - old(StoredSum(addr)) + ASum(account)
@@ -258,3 +263,24 @@ package state
 //@   modifies GWrites
 //@   ensures err != nil ==> unavail(err)
 //@   ensures err == nil ==> GWrites > old(GWrites)
+
+// ---- authentication, fee and nonce (C08, C09) ----
+
+//@ ghost func FeeAmt(fee *transaction.Fee) int { return ite(fee == nil, 0, quantity.Val(&fee.Amount)) }
+//@ ghost func Deliver(ctx *abciAPI.Context) bool { return !abciAPI.IsSim(ctx) && !abciAPI.IsCheck(ctx) }
+
+//@ func AuthenticateAndPayFees
+//@   props C08 C09
+//@   requires ctx != nil
+//@   requires fee == nil || quantity.Val(&fee.Amount) >= 0
+//@   assumes GNonce[staking.AddrOf(signer)] < 18446744073709551615
+//@   ensures err != nil && !unavail(err) ==> GWrites == old(GWrites)
+//@   ensures err == nil && !old(Deliver(ctx)) ==> GWrites == old(GWrites)
+//@   ensures err == nil && !old(abciAPI.IsSim(ctx)) ==> old(GNonce[staking.AddrOf(signer)]) == nonce
+//@   ensures err == nil && !old(abciAPI.IsSim(ctx)) ==> old(GGen[staking.AddrOf(signer)]) >= old(FeeAmt(fee))
+//@   ensures err == nil && old(Deliver(ctx)) ==> mapEq(GNonce, upd(old(GNonce), staking.AddrOf(signer), nonce + 1))
+//@   ensures err == nil && old(Deliver(ctx)) ==> mapEq(GGen, upd(old(GGen), staking.AddrOf(signer), old(GGen[staking.AddrOf(signer)]) - old(FeeAmt(fee))))
+//@   ensures err == nil && old(Deliver(ctx)) ==> GAcctSum == old(GAcctSum) - old(FeeAmt(fee))
+//@   ensures err == nil && old(Deliver(ctx)) ==> mapEq(GActB, old(GActB)) && mapEq(GActS, old(GActS)) && mapEq(GDebB, old(GDebB)) && mapEq(GDebS, old(GDebS))
+//@   ensures err == nil ==> GCommon == old(GCommon) && GGovDep == old(GGovDep) && GLastFees == old(GLastFees) && GSupply == old(GSupply)
+//@   ensures err == nil ==> mapEq(GDel, old(GDel)) && mapEq(GDelSum, old(GDelSum)) && mapEq(GDeb, old(GDeb)) && mapEq(GDebSum, old(GDebSum))
